@@ -1,6 +1,7 @@
 (* sx interface of the isomorphism / parse-tree-map model.
 
-   input   L [I mode; spec1; spec2; I fuel; order; trees1; trees2]
+   input   L [I mode; spec1; spec2; I fuel; order; trees1; trees2; I exact]
+     exact = 1: the ancestor set holds pairs of current classes only (the repaired code), 0 (or absent): as /repo
      spec  = L [I root; L [rule ...]; L [I empty label ...]]
      rule  = L [I label; I isrule; L [I child ...]; I iseq; L [I tag; L [L [I value ...] ...]]; I atom; L [L [I ...] ...]]
      order = L [L [I c1; I c2; L [I ...]] ...]   in insertion order (only read when mode = 1)
@@ -92,7 +93,7 @@ Definition run_c12 (inp : sx) : sx :=
     (* Constructor.equiv on two constructor descriptors *)
     L [I 0; of_bool (ctor_equiv (dec_ctor (sx_nth inp 1)) (dec_ctor (sx_nth inp 2)))]
   else
-  match are_isomorphic s1 s2 fuel with
+  match are_isomorphic (sx_bool (sx_nth inp 7)) s1 s2 fuel with
   | OutOfFuel => L [I 8]
   | Raise e => L [I e]
   | Ok (b, s) =>
